@@ -129,6 +129,7 @@ def full_alphabet(st=None, hist=None, *, with_alias=True):
         # two window functions that take their order from the table (no arrange=)
         ["mutate", [["l1", ["shift", col(T, "x"), 1, None]], ["l2", ["row_number"]]]],
         ["select", [Cn("g"), Cn("x")]],  # hides k (e.g. the column the table is ordered by)
+        ["select", [Cn("s"), Cn("b"), Cn("f"), Cn("x"), Cn("g"), Cn("k")]],  # a pure permutation of all columns
     ]
     if not with_alias:
         ev = [e for e in ev if e[0] != "alias"]
